@@ -37,7 +37,7 @@ QUICK = [
     # them; each job with a consumer in turn is a two-output job, jobs gain / lose outputs (rename),
     # also right after an interrupted evaluation
     ("names3", "explore", ["exh", "n=3", "conv=names", "multi=1", "levels=-/dbrf1/dbrx", "steps=0"],
-     {"C01", "C03", "C04", "C09", "C18"}, True, None),
+     {"C01", "C03", "C04", "C09", "C11", "C18"}, True, None),
     # regression shapes (harness/shapes.txt): graphs on which a known defect or a seeded change needed
     # something specific; every schedule, every single failure, every abort point, chains of three
     ("shapes", "explore", ["shapes", "levels=f1a/dbf1a/db", "steps=0", "maxstates=3000"],
@@ -55,19 +55,21 @@ THOROUGH = [
     ("n3stamp", "explore", ["exh", "n=3", "cmp=both", "levels=f1a/dbnef1a/db"], {"C15", "C04", "C09", "C12"}, True, None),
     ("n3flaky", "explore", ["exh", "n=3", "cmp=both", "levels=-/bdkf1/k"], {"C16", "C06", "C08"}, True, None),
     ("n3decl", "explore", ["exh", "n=3", "levels=p9/dbnep9"], {"C14"}, True, None),
-    ("n4", "explore", ["exh", "n=4", "levels=f1a/dbf1", "steps=0", "maxstates=4000"], TRACEP - {"C15", "C16", "C20"}, True, None),
-    ("n4e2", "explore", ["exh", "n=4", "filter=eph2", "levels=f1/dbnef1/db", "paths=3", "steps=0"],
+    # every 4-job graph: clean build, every delete / bump with every single failure, resume; 2 schedules
+    ("n4", "explore", ["exh", "n=4", "levels=-/dbf1/-", "paths=2", "steps=0"], TRACEP - {"C15", "C16", "C20"}, False, None),
+    # the Ephemeral-rich 4-job graphs: every schedule, aborts, node / edge edits, chains of three
+    ("n4e2", "explore", ["exh", "n=4", "filter=eph2", "levels=f1a/dbnef1a/db", "steps=0", "maxstates=3000"],
      TRACEP - {"C14", "C15", "C16", "C20"}, False, None),
     ("n4stamp", "explore", ["exh", "n=4", "filter=eph2", "cmp=both", "levels=f1/dbf1/-", "paths=2", "steps=0"], {"C15", "C16"}, False, None),
     ("n4flaky", "explore", ["exh", "n=4", "filter=eph2", "cmp=both", "levels=-/bdk/-", "paths=2", "steps=0"], {"C16"}, False, None),
-    ("eph5", "explore", ["exh", "n=5", "filter=eph5", "stride=5", "levels=-/dbf1/-", "paths=2", "steps=0"],
+    ("eph5", "explore", ["exh", "n=5", "filter=eph5", "stride=7", "levels=-/dbf1/-", "paths=2", "steps=0"],
      TRACEP - {"C14", "C15", "C16", "C20"}, False, None),
     ("rnd6", "explore", ["random", "n=6", "count=400", "levels=f1/dbnef1/db", "paths=3", "steps=0"], TRACEP - {"C15", "C16", "C20"}, False, None),
-    ("names3", "explore", ["exh", "n=3", "conv=names", "multi=1", "levels=f1/dbnerf1a/dbrx"],
+    ("names3", "explore", ["exh", "n=3", "conv=names", "multi=1", "levels=f1/dbnerf1a/dbrx", "steps=0"],
      {"C01", "C03", "C04", "C06", "C08", "C09", "C11", "C12", "C18"}, True, None),
-    ("names4", "explore", ["exh", "n=4", "conv=names", "multi=1", "filter=eph2", "levels=-/dbrf1/rx", "paths=2", "steps=0"],
+    ("names4", "explore", ["exh", "n=4", "conv=names", "multi=1", "filter=eph2", "stride=3", "levels=-/dbrf1/rx", "paths=2", "steps=0"],
      {"C01", "C03", "C04", "C09", "C18"}, False, None),
-    ("shapes", "explore", ["shapes", "levels=f1a/dbnef1a/dbf1", "steps=0", "maxstates=6000", "double=1"],
+    ("shapes", "explore", ["shapes", "levels=f1a/dbnetf1a/dbf1", "steps=0", "maxstates=3000"],
      TRACEP - {"C14", "C15", "C16", "C20"}, False, None),
     ("shapesst", "explore", ["shapes", "cmp=both", "levels=f1a/dbf1a/db", "steps=0", "maxstates=3000"], {"C15", "C16"}, False, None),
     ("shapesfl", "explore", ["shapes", "cmp=both", "levels=-/bdkf1/k", "steps=0", "maxstates=3000"], {"C16"}, False, None),
